@@ -39,6 +39,9 @@ m = dict(version=1,
                        kind_free_text="Coq 8.16.1 theorems over hand-written executable Gallina models (coq/), constants regenerated from the compiled tree (tie/dump_params.cpp -> coq/gen/Params_gen.v), models extracted to OCaml (ExtrOcamlBasic) and run against C++ drivers linked with libraries rebuilt from /repo on every run")],
          checks=checks,
          not_applicable=na,
-         notes="All checks: ./check <ID> --tier quick|thorough; honours VERIF_SEED and VERIF_TIER; exit 0 held / 1 VIOLATION / 2 infrastructure error (no verdict). See DESIGN.md.")
+         notes=("All checks: ./check <ID> --tier quick|thorough; honours VERIF_SEED and VERIF_TIER; exit 0 held (KNOWN-FINDING lines for the open entries "
+                "of known_findings.json) / 1 VIOLATION / 2 infrastructure error (no verdict). No hooks were added to /repo. /repo carries nine unguarded "
+                "`fix:` commits repairing genuine defects found by the checks (be3e2f2 e8f1dc6 a3617e9 21144c2 767b57b 8268070 e225567 eec7c54 b3a3ee2; "
+                "see DESIGN.md 9.5 and known_findings.json 'fixed' entries); the baseline suite passes with them (ctest on /repo/_build: 100%). See DESIGN.md section 9."))
 json.dump(m, open(os.path.join(V, "MANIFEST.json"), "w"), indent=1)
 print("claimed:", len(checks), "unclaimed:", len(na))
